@@ -123,6 +123,50 @@ theorem whole_global_refs_resolve (ls : List Bytes) (m : Module) (h : parse ls =
                 simpa [genvOf, hnames, List.map_append, List.map_map, Function.comp_def] using this
               · cases h
 
+/-- **no dangling metadata attachment in an accepted module**: whatever text the parser accepts as a module of the fragment, every `!name !N` attached
+    to an instruction of a function body refers to a metadata definition `!N = …` of the module's own metadata section (defined before or AFTER the
+    function: the section follows the functions); a text whose attachment names an ID nothing defines is therefore rejected -/
+theorem whole_attachment_refs_resolve (ls : List Bytes) (m : Module) (h : parse ls = some m) :
+    ∀ f ∈ m.funcs, ∀ k ∈ Core3.mdUses f, k ∈ m.md.defs.map (·.id) := by
+  unfold parse at h
+  cases hr : readTop (ls.length + 1) ls with
+  | none => simp [hr] at h
+  | some t =>
+    simp only [hr, Option.bind] at h
+    unfold translate at h
+    cases hc : (mergeTypedefs [] t.lines).bind Core2.translateTok with
+    | none => simp [hc] at h
+    | some c2 =>
+      simp only [hc] at h
+      cases hf : mapM' (Core3.translateIn (genvOf c2.globals t.funcs)) t.funcs with
+      | none => simp [hf] at h
+      | some fs =>
+        cases hm : Meta.readLines t.md with
+        | none => simp [hf, hm] at h
+        | some raws =>
+          simp only [hf, hm] at h
+          cases ht : Meta.translate raws with
+          | error => simp [ht] at h
+          | ok md =>
+            simp only [ht] at h
+            split at h
+            · cases h
+            · split at h
+              · rename_i hx
+                injection h with h
+                subst h
+                simp only [Bool.and_eq_true, List.all_eq_true] at hx
+                intro f hfm k hk
+                have := hx.2 k (List.mem_flatMap.mpr ⟨f, hfm, hk⟩)
+                simpa using this
+              · cases h
+
+/-- non-vacuity: the accepted module `wholeSample` has three attachments (`!dbg !7`, `!1a !4294967296` on a load; `!x !0` on a `ret`), all defined by
+    its metadata section, which follows the functions -/
+example : (parse (printModule (fun _ => false) C01.wholeSample)).map (fun m => (m.funcs.flatMap Core3.mdUses, m.md.defs.map (·.id))) =
+    some ([7, 4294967296, 0], [0, 1, 7, 4294967296]) := by
+  decide +kernel
+
 /-- non-vacuity: the module `wholeSample` (its function `@f` invokes itself; its function `@h` mentions the global variable `@c` twice and the function `@f` twice (once as the callee of a call)) is accepted -/
 example : (parse (printModule (fun _ => false) C01.wholeSample)).map (fun m => m.funcs.flatMap Core3.globUses) = some [[102], [99], [102], [99], [102], [101, 120, 116]] := by
   decide +kernel
